@@ -134,9 +134,13 @@ func (am *assetMgr) loadAsset(logger *slog.Logger, mpdPath string) error {
 		}
 	}
 	md.Dur = mpd.MediaPresentationDuration.String()
-	asset.MPDs[mpdName] = md
 
 	fillContentTypes(assetPath, mpd.Periods[0])
+
+	// Nothing is registered in the asset until the whole MPD has been loaded,
+	// so that an error leaves no MPD behind that refers to missing representations.
+	newReps := make(map[string]*RepData)
+	segmentDurMS := asset.SegmentDurMS
 
 	for _, as := range mpd.Periods[0].AdaptationSets {
 		if as.SegmentTemplate == nil {
@@ -150,6 +154,10 @@ func (am *assetMgr) loadAsset(logger *slog.Logger, mpdPath string) error {
 				logger.Debug("Representation already loaded", "rep", rep.Id)
 				continue
 			}
+			if _, ok := newReps[rep.Id]; ok {
+				logger.Debug("Representation already loaded", "rep", rep.Id)
+				continue
+			}
 			r, err := am.loadRep(logger, assetPath, as, rep)
 			if err != nil {
 				return fmt.Errorf("getRep: %w", err)
@@ -157,10 +165,10 @@ func (am *assetMgr) loadAsset(logger *slog.Logger, mpdPath string) error {
 			if len(r.Segments) == 0 {
 				return fmt.Errorf("rep %s of type %s has no segments", rep.Id, r.ContentType)
 			}
-			asset.Reps[r.ID] = r
+			newReps[r.ID] = r
 			avgSegDurMS := int(math.Round(float64(r.duration()*1000.0)) / float64((r.MediaTimescale * len(r.Segments))))
-			if asset.SegmentDurMS == 0 || avgSegDurMS < asset.SegmentDurMS {
-				asset.SegmentDurMS = avgSegDurMS
+			if segmentDurMS == 0 || avgSegDurMS < segmentDurMS {
+				segmentDurMS = avgSegDurMS
 			}
 			if as.ContentType == "audio" {
 				if r.ConstantSampleDuration == nil || *r.ConstantSampleDuration == 0 {
@@ -169,6 +177,11 @@ func (am *assetMgr) loadAsset(logger *slog.Logger, mpdPath string) error {
 			}
 		}
 	}
+	asset.MPDs[mpdName] = md
+	for id, r := range newReps {
+		asset.Reps[id] = r
+	}
+	asset.SegmentDurMS = segmentDurMS
 	logger.Info("Asset MPD loaded")
 	return nil
 }
